@@ -93,7 +93,12 @@ func Transcript(seed uint64, k int, bls bool, sigIn, sigOut string) (map[string]
 				mode string
 			}{{dkgsim.Engine{}, "C07", ""}, {dkgsim.Engine{}, "C08", ""}, {thrnet.Engine{}, "C06", ""},
 				// worlds whose verdict hinges on the subgroup checks of every vector point, and a craft world
-				{dkgsim.Engine{}, "C08", "fermat"}, {dkgsim.Engine{}, "C08", "torsion"}, {dkgsim.Engine{}, "C07", "craft"}} {
+				{dkgsim.Engine{}, "C08", "fermat"}, {dkgsim.Engine{}, "C08", "torsion"}, {dkgsim.Engine{}, "C07", "craft"},
+				// participant indices up to 253 (small-exponent multiplication over the whole byte range) and mid-size groups
+				{dkgsim.Engine{}, "C07", "wide"}, {dkgsim.Engine{}, "C07", "mid"}} {
+				if (p.mode == "wide" || p.mode == "mid") && i%4 != 0 {
+					continue // the large worlds are expensive: every fourth seed
+				}
 				name := fmt.Sprintf("%s-%s%s/%d", p.e.Name(), p.prop, p.mode, i)
 				o, _ := engine.RunOne(p.e, seed, i, engine.Opt{Property: p.prop, Tier: "quick", Mode: p.mode})
 				t.begin(name)
